@@ -420,7 +420,13 @@ class Gen:
             if k in (19, 20, 21) and env['refs'] and self.ok('ref'):
                 return ('ref', r.choice(env['refs']))
             if k == 22 and self.ok('ref'):
-                return ('ref', r.choice(DEFAULT_NAMES))
+                dn = r.choice(DEFAULT_NAMES)
+                base = dn[0].lower()
+                # a default rule body is read in the referencing scope: :d+ uses a user rule :d when there is one,
+                # so it is only as safe (left recursion) as a direct reference to that user rule
+                if base in env.get('visible', []) and base not in env['refs']:
+                    continue
+                return ('ref', dn)
             if k == 23 and self.ok('error') and r.chance(1, 6):
                 return ('error0',)
         return ('str', self.lit())
@@ -526,9 +532,9 @@ class Gen:
         """nested (or top-level) grammar with named rules; rule i may reference rules j > i freely (a DAG) and any rule
         of this grammar once a character has been consumed"""
         r = self.r
-        pool = ["p", "q", "r2", "main2"]
+        pool = ["p", "q", "a", "d", "s"]          # a, d, s shadow default-peg-grammar entries
         r.shuffle(pool)
-        names = ["main"] + pool[:r.range(0, 2)]
+        names = ["main"] + pool[:r.range(0, 3)]
         rules = []
         for i, n in enumerate(names):
             later = names[i + 1:]
@@ -536,6 +542,7 @@ class Gen:
             outer_refs = [x for x in env['refs'] if x != "main" and x not in names]
             outer_guarded = [x for x in env['guarded'] if x != "main" and x not in names]
             e = dict(env, refs=sorted(set(later) | set(outer_refs)), guarded=sorted(set(names) | set(outer_guarded)),
+                     visible=sorted(set(names) | set(env.get('visible', []))),
                      dag=sorted(set(later) | set(x for x in env.get('dag', []) if x not in names)))
             rules.append((n, self.patt(d, e)))
         return ('grammar', rules)
@@ -676,6 +683,63 @@ class Gen:
         if r.chance(1, 5):
             p = ('choice', [('seq', [p, ('bool', False)]), p])
         return p
+
+    # ---- templates: nested grammars, shadowed names, outer rules reached from inner grammars, recursion through them
+    def scoping(self):
+        r = self.r
+        lits = [b"a", b"b", b"1", b"ab", b"\n", b"b1"]
+        r.shuffle(lits)
+        shadow = r.choice(["x", "a", "d", "s", "x"])          # the name bound in both grammars
+        via = r.choice(["c", "p", "w"])                        # outer rule that mentions it
+        cap = lambda p: ('capture', 0, p) if r.chance(1, 2) else p
+        use = ('ref', shadow)
+        if shadow in ("a", "d") and r.chance(1, 2):
+            use = ('ref', shadow + r.choice(["+", "*"]))       # through the default grammar: (some :a) ...
+        k = r.below(5)
+        if k == 0:
+            via_body = ('seq', [use])
+        elif k == 1:
+            via_body = cap(('some', use))
+        elif k == 2:                                           # recursive outer rule
+            via_body = ('seq', [use, ('any', ('ref', via)), ('ref', "close")])
+        elif k == 3:
+            via_body = ('choice', [('seq', [use, ('ref', via)]), use])
+        else:
+            via_body = ('ref', shadow)                         # keyword -> keyword chain
+        inner_rules = [("main", r.choice([('seq', [cap(('ref', via)), ('str', lits[2])]), cap(('ref', via)),
+                                         ('seq', [('ref', shadow), cap(('ref', via))]),
+                                         ('any', ('choice', [cap(('ref', via)), ('ref', shadow)]))])),
+                       (shadow, ('str', lits[1]))]
+        if k == 2 and r.chance(1, 2):
+            inner_rules.append(("close", ('str', lits[3])))
+        if r.chance(1, 4):                                     # a third level that shadows again
+            inner_rules[0] = ("main", ('seq', [inner_rules[0][1], ('grammar', [("main", ('opt', cap(('ref', via)))), (shadow, ('str', lits[4]))])]))
+        inner = ('grammar', inner_rules)
+        first = r.below(4)
+        if first == 0:
+            main = ('seq', [cap(('ref', via)), inner, ('position', 0)])         # outer use first, then through the inner grammar
+        elif first == 1:
+            main = ('seq', [inner, cap(('ref', shadow)), ('position', 0)])      # reached only through the inner grammar
+        elif first == 2:
+            main = ('seq', [('opt', inner), ('opt', cap(('ref', via))), ('position', 0)])
+        else:
+            main = ('choice', [('seq', [inner, ('int', -1)]), ('seq', [cap(('ref', via)), ('position', 0)])])
+        rules = [(shadow, ('str', lits[0])), (via, via_body), ("close", ('str', lits[5] if k != 2 else b"b")), ("main", main)]
+        r.shuffle(rules)
+        return ('grammar', rules)
+
+    def scoping_text(self, g):
+        r = self.r
+        pieces = []
+
+        def walk(q):
+            if q[0] == 'str' and q[1]:
+                pieces.append(q[1])
+            for c in children(q):
+                walk(c)
+        walk(g)
+        pieces += [b"2", b"0"]
+        return b"".join(r.choice(pieces) for _ in range(r.range(0, 5)))[:10]
 
     def args(self):
         return [self.scalar() for _ in range(self.r.choice([0, 0, 1, 2, 3]))]
